@@ -19,7 +19,7 @@ import (
 // C12 end to end: access rules and route authentication gate every HTTP request.
 func TestVerifC12HTTP(t *testing.T) {
 	L := ev.Begin("C12", "c12-http", "exploration",
-		"access rule {none, allow v4 block, deny v4 block, allow v6 block, allow with malformed item, allow+deny} x auth scheme {none, known basic, unknown} x configured scheme map {one scheme, empty, nil} x peer (4) x X-Forwarded-For (none/inside/outside) x credentials {none, good, bad password, unknown user, malformed basic header, other scheme} through the real HTTPProxy.ServeHTTP with a real htpasswd file; oracle: 403 / 401 / 200 exactly as the statement prescribes and the upstream hit counter stays 0 unless admitted and authorised. non-trivial = case with a rule or an auth scheme")
+		"access rule {none, allow v4 block, deny v4 block, allow v6 block, allow with malformed item, allow+deny, allow and deny with one malformed item next to a well-formed one} x auth scheme {none, known basic, unknown} x configured scheme map {one scheme, empty, nil} x peer (4) x X-Forwarded-For (none/inside/outside) x credentials {none, good, bad password, unknown user, malformed basic header, other scheme} through the real HTTPProxy.ServeHTTP with a real htpasswd file; oracle: 403 / 401 / 200 exactly as the statement prescribes and the upstream hit counter stays 0 unless admitted and authorised. non-trivial = case with a rule or an auth scheme")
 	dir, err := os.MkdirTemp("", "c12")
 	if err != nil {
 		panic(err)
@@ -35,18 +35,23 @@ func TestVerifC12HTTP(t *testing.T) {
 	type rule struct {
 		opt   string
 		admit func(ip net.IP) bool
+		// partly: the rule has a malformed item next to well-formed ones: the statement
+		// only demands that it never widens, so a 403 for an address inside is acceptable
+		partly bool
 	}
 	in := func(cidr string) func(net.IP) bool {
 		_, n, _ := net.ParseCIDR(cidr)
 		return func(ip net.IP) bool { return n.Contains(ip) }
 	}
 	rules := []rule{
-		{"", func(net.IP) bool { return true }},
-		{"allow=ip:10.0.0.0/8", in("10.0.0.0/8")},
-		{"deny=ip:10.0.0.0/8", func(ip net.IP) bool { return !in("10.0.0.0/8")(ip) }},
-		{"allow=ip:fe80::/10", in("fe80::/10")},
-		{"allow=ip:10.0.0.0/33", func(net.IP) bool { return false }},
-		{"allow=ip:10.0.0.0/8 deny=ip:10.1.0.0/16", func(ip net.IP) bool { return false }},
+		{"", func(net.IP) bool { return true }, false},
+		{"allow=ip:10.0.0.0/8", in("10.0.0.0/8"), false},
+		{"deny=ip:10.0.0.0/8", func(ip net.IP) bool { return !in("10.0.0.0/8")(ip) }, false},
+		{"allow=ip:fe80::/10", in("fe80::/10"), false},
+		{"allow=ip:10.0.0.0/33", func(net.IP) bool { return false }, false},
+		{"allow=ip:10.0.0.0/8 deny=ip:10.1.0.0/16", func(ip net.IP) bool { return false }, false},
+		{"allow=ip:10.0.0.0/8,ip:10.0.0.0/33", in("10.0.0.0/8"), true},
+		{"deny=ip:11.0.0.0/8,foo:bar", func(ip net.IP) bool { return !in("11.0.0.0/8")(ip) }, true},
 	}
 	type cred struct {
 		name string
@@ -135,6 +140,9 @@ func TestVerifC12HTTP(t *testing.T) {
 			L.Sample(d)
 		}
 		kind := ""
+		if j.r.partly && rec.Code == 403 && hits == 0 {
+			return // never widens: rejecting is always acceptable for a partly malformed rule
+		}
 		switch {
 		case hits != wantHits && wantHits == 0:
 			kind = "upstream-contacted-for-rejected-request"
